@@ -21,7 +21,7 @@ RULE = (
     "VMFSSPARSE (COWD) and SESPARSE, each with its own size (incl. sizes that are not a multiple of 16 sectors) and grain map, "
     "file names from letters/digits/space/quotes/parentheses/unicode/emoji incl. inner double quotes, descriptor text with "
     "comments, blank lines, CRLF/LF, ddb lines, access modes RW/RDONLY/NOACCESS and optional trailing start sector; (b) explicit "
-    "handle lists VMDK([fh, ...]); (c) Parallels .hdd directories with 1..6 storages (Plain or Compressed) in shuffled "
+    "handle lists VMDK([fh, ...]) and path lists VMDK([Path | str, ...]) used for two successive opens; (c) Parallels .hdd directories with 1..6 storages (Plain or Compressed) in shuffled "
     "document order. Requests are weighted to +-1 sector around every extent boundary and the disk tail. Oracle: concatenation "
     "model; size == sum, descriptor.sectors == sum, number of opened disks == number of data-bearing extents declared, "
     "per-extent sector offsets. Non-trivial = >= 2 extents of >= 2 kinds and a request straddling an extent boundary."
@@ -84,7 +84,8 @@ def vmdk_list(draw, tier):
         e = draw(c02.extent_spec(tier, kind=kind, layer=j, capacity=cap, allow_compressed=True))
         e.pop("descriptor", None)
         exts.append({"spec": e})
-    return {"mode": "vmdk-list", "extents": exts}
+    # the list holds open handles, or paths (Path / str / both) to files on disk; a list of paths is used for two successive opens
+    return {"mode": "vmdk-list", "extents": exts, "list_by": draw(st.sampled_from(["handles", "handles", "paths", "strs", "mixed"]))}
 
 
 @st.composite
@@ -164,6 +165,33 @@ def check(spec) -> Outcome:
     for k in kinds:
         out.cls("kind-" + k)
 
+    if mode == "vmdk-list" and spec.get("list_by", "handles") != "handles":
+        d = scratch_dir()
+        vs = []
+        try:
+            args = []
+            for j, fh in enumerate(built):
+                pth = os.path.join(d, f"extent-{j}.vmdk")
+                fh.write_to(pth)
+                by = spec["list_by"]
+                args.append(Path(pth) if by == "paths" or (by == "mixed" and j % 2 == 0) else pth)
+            out.cls("list-by-" + spec["list_by"])
+            for attempt in ("vmdk-list", "vmdk-list-again"):
+                v, err = lib(VMDK, args)
+                if err:
+                    out.fail(err.sig(attempt + "-open"), f"VMDK([paths]) raised {err.describe()}")
+                    break
+                vs.append(v)
+                _vmdk_oracle(out, v, spec, lay, total, exts, attempt)
+        finally:
+            for v in vs:
+                for dsk in getattr(v, "disks", []):
+                    try:
+                        dsk.fh.close()
+                    except Exception:  # noqa: BLE001
+                        pass
+            shutil.rmtree(d, ignore_errors=True)
+        return out
     if mode == "vmdk-list":
         v, err = lib(VMDK, built)
         if err:
